@@ -30,10 +30,11 @@ var errtableJSON []byte
 var ErrTablePackages = []string{"main", "raftstore", "raftlog", "outputstream", "robust", "config", "timesafeguard"}
 
 type errSite struct {
-	fn     string // attributed function
-	callee string
-	strong bool
-	pos    string
+	fn      string // attributed function
+	callee  string
+	strong  bool
+	dropped bool // the error result is not even bound to a variable
+	pos     string
 }
 
 func calleeKey(info *types.Info, call *ast.CallExpr) string {
@@ -59,7 +60,7 @@ func (c *Ctx) errSitesOf(fi *load.FuncInfo) []errSite {
 				for _, res := range rs.Results {
 					if call, ok := ast.Unparen(res).(*ast.CallExpr); ok {
 						if t := info.TypeOf(call); t != nil && types.Identical(t, errT) {
-							out = append(out, errSite{attrib, calleeKey(info, call), true, c.P.Pos(call.Pos())})
+							out = append(out, errSite{attrib, calleeKey(info, call), true, false, c.P.Pos(call.Pos())})
 						}
 					}
 				}
@@ -67,17 +68,26 @@ func (c *Ctx) errSitesOf(fi *load.FuncInfo) []errSite {
 			}
 			as, ok := v.Node.(*ast.AssignStmt)
 			if !ok || len(as.Rhs) != 1 {
-				if es, ok := v.Node.(*ast.ExprStmt); ok {
+				var dropped *ast.CallExpr
+				switch st := v.Node.(type) {
+				case *ast.ExprStmt:
+					dropped, _ = st.X.(*ast.CallExpr)
+				case *ast.DeferStmt:
+					dropped = st.Call
+				case *ast.GoStmt:
+					dropped = st.Call
+				}
+				if dropped != nil {
 					// result dropped entirely
-					if call, ok := es.X.(*ast.CallExpr); ok {
+					if call := dropped; call != nil {
 						if tup, ok := info.TypeOf(call).(*types.Tuple); ok {
 							for i := 0; i < tup.Len(); i++ {
 								if types.Identical(tup.At(i).Type(), errT) {
-									out = append(out, errSite{attrib, calleeKey(info, call), false, c.P.Pos(call.Pos())})
+									out = append(out, errSite{attrib, calleeKey(info, call), false, true, c.P.Pos(call.Pos())})
 								}
 							}
 						} else if t := info.TypeOf(call); t != nil && types.Identical(t, errT) {
-							out = append(out, errSite{attrib, calleeKey(info, call), false, c.P.Pos(call.Pos())})
+							out = append(out, errSite{attrib, calleeKey(info, call), false, true, c.P.Pos(call.Pos())})
 						}
 					}
 				}
@@ -114,7 +124,7 @@ func (c *Ctx) errSitesOf(fi *load.FuncInfo) []errSite {
 					}
 				}
 				if blank {
-					out = append(out, errSite{attrib, calleeKey(info, call), false, c.P.Pos(call.Pos())})
+					out = append(out, errSite{attrib, calleeKey(info, call), false, true, c.P.Pos(call.Pos())})
 				}
 				continue
 			}
@@ -173,7 +183,7 @@ func (c *Ctx) errSitesOf(fi *load.FuncInfo) []errSite {
 					strong = false
 				}
 			}
-			out = append(out, errSite{attrib, calleeKey(info, call), strong, c.P.Pos(call.Pos())})
+			out = append(out, errSite{attrib, calleeKey(info, call), strong, false, c.P.Pos(call.Pos())})
 		}
 	}
 	one(fi.Info(), c.Graph(fi))
@@ -205,6 +215,8 @@ func GenErrTable(p *load.Program, out string) error {
 			for _, s := range c.errSitesOf(fi) {
 				if s.strong {
 					tab[s.fn+" | "+s.callee]++
+				} else if s.dropped {
+					tab["dropped: "+s.fn+" | "+s.callee]++
 				}
 			}
 		}
@@ -226,6 +238,7 @@ func (c *Ctx) errorDispositions(rule string, pkgs []string, only func(fn string)
 	}
 	strong := map[string]int{}
 	weak := map[string][]string{}
+	dropped := map[string][]string{}
 	for _, pkg := range pkgs {
 		for _, fi := range c.P.FuncsIn(pkg) {
 			if fi.Body() == nil {
@@ -237,12 +250,37 @@ func (c *Ctx) errorDispositions(rule string, pkgs []string, only func(fn string)
 					strong[k]++
 				} else {
 					weak[k] = append(weak[k], s.pos)
+					if s.dropped {
+						dropped[k] = append(dropped[k], s.pos)
+					}
 				}
 			}
 		}
 	}
+	// sites that do not act on the error: none beyond those recorded (logging and formatting calls aside)
+	var wkeys []string
+	for k := range dropped {
+		wkeys = append(wkeys, k)
+	}
+	sort.Strings(wkeys)
+	for _, k := range wkeys {
+		fn := k[:indexOf(k, " | ")]
+		callee := k[indexOf(k, " | ")+3:]
+		if only != nil && !only(fn) {
+			continue
+		}
+		if hasAnyPrefix(callee, "fmt.", "log.", "github.com/golang/glog.", "github.com/stapelberg/glog.", "(*log.", "(*text/tabwriter", "(io.Closer).Close", "(*os.File).Close") {
+			continue
+		}
+		allowed := tab["dropped: "+k]
+		r.Check(len(dropped[k]) <= allowed, rule, fn, "no new call of "+callee+" whose error is discarded", dropped[k][len(dropped[k])-1], itoa(allowed)+" such site(s) recorded",
+			"a call of "+callee+" in "+fn+" discards its error result (statement, defer or blank; not among the sites read and recorded on the pinned tree): a failed flush, write or delete goes unnoticed: "+detail)
+	}
 	var keys []string
 	for k := range tab {
+		if len(k) > 9 && k[:9] == "dropped: " {
+			continue
+		}
 		keys = append(keys, k)
 	}
 	sort.Strings(keys)
@@ -281,4 +319,13 @@ func indexOf(s, sub string) int {
 		}
 	}
 	return -1
+}
+
+func hasAnyPrefix(s string, ps ...string) bool {
+	for _, p := range ps {
+		if len(s) >= len(p) && s[:len(p)] == p {
+			return true
+		}
+	}
+	return false
 }
